@@ -283,6 +283,8 @@ def c01(W, replay=None):
         scen += attacker_family(W, 400 if thorough else 120)
         scen += random_histories(W, 600 if thorough else 60, faults=True)
         scen += parallel_family(W, 200 if thorough else 20)
+        scen += [x for x in family(W, "C15", "quick") if "/body/" in x["id"]]        # odd token-endpoint bodies (C01 rule for them)
+        scen += [x for x in timeout_system_scenarios(W)] + decoy_family(W) + after_deny_family(W)
     return sys_pipeline("C01", W, scen, None, [
         "the ID-token expiry and signature ground truth comes from the simulated identity provider",
         "one check runs at a time between gates (store, token endpoint, key lookup); real parallelism inside a store call is C12's subject",
@@ -297,6 +299,118 @@ def parallel_family(W, n, flows=8):
         st = ("memory", "redis")[i % 2]
         steps = [{"op": "parallel", "d": flows, "ans": ans}, {"op": "parallel", "d": flows, "ans": ans}]
         res.append({"id": "parallel/%s/%d" % (st, i), "cfg": {"filters": [dict(F1, store=st)]}, "steps": steps, "tags": ["parallel"]})
+    return res
+
+
+ANS = {"mode": "honest", "rt": True, "expiresIn": 60, "idLife": 60}
+
+
+def browse(b, f, url, ans=None):
+    return {"op": "browse", "b": b, "f": f, "url": url, "ans": dict(ans or ANS)}
+
+
+def app(b, f, cookie="jar", url=1, ans=None, **kw):
+    return dict({"op": "check", "b": b, "f": f, "kind": "app", "cookie": cookie, "url": url, "ans": dict(ans or ANS)}, **kw)
+
+
+def same_client_family(W):
+    """Two filters that share the OIDC client id (and secret) but differ in key set, callback and cookie prefix."""
+    res = []
+    for st in ("memory", "redis"):
+        for first in ("f1", "f2"):
+            f1 = dict(F1, store=st, clientId="shared-client", clientSecret="SHARED-SECRET-8Hq2Lm5Zx7", prefix="one")
+            f2 = dict(F2, store=st, clientId="shared-client", clientSecret="SHARED-SECRET-8Hq2Lm5Zx7", prefix="two", keySet="k3", idp="B")
+            other = "f2" if first == "f1" else "f1"
+            wrong_key = "k1" if other == "f2" else "k3"      # a token signed by the OTHER filter's key
+            steps = [browse("b1", first, 1), app("b1", first), browse("b2", other, 2), app("b2", other),
+                     # a third login at `other` answered with a token that only the first filter's key set would accept
+                     app("b3", other, cookie="none", url=3), {"op": "authz", "b": "b3", "sid": 3},
+                     {"op": "check", "b": "b3", "f": other, "kind": "callback", "cookie": "jar", "st": "jar", "code": "jar", "ans": dict(ANS, signKey=wrong_key)},
+                     app("b3", other, url=3),
+                     {"op": "check", "b": "b1", "f": first, "kind": "logout", "cookie": "jar"}, {"op": "check", "b": "b2", "f": other, "kind": "logout", "cookie": "jar"}]
+            res.append({"id": "sameclient/%s/%s-first" % (st, first), "cfg": {"filters": [f1, f2]}, "steps": steps, "tags": ["sameClient"]})
+    return res
+
+
+def after_deny_family(W):
+    """An OIDC filter followed by a denying (or allowing) mock filter in the same chain."""
+    res = []
+    for st in ("memory", "redis"):
+        for after in ("deny", "allow"):
+            for fwd in (True, False):
+                f = dict(F1, store=st, after=after, accessFwd=fwd)
+                steps = [app("b1", "f1", cookie="none"), {"op": "authz", "b": "b1", "sid": 1},
+                         {"op": "check", "b": "b1", "f": "f1", "kind": "callback", "cookie": "jar", "st": "jar", "code": "jar", "ans": dict(ANS)},
+                         app("b1", "f1"), {"op": "tick", "d": 61}, app("b1", "f1", ans=dict(ANS, rotate=True)), app("b1", "f1"),
+                         {"op": "check", "b": "b1", "f": "f1", "kind": "logout", "cookie": "jar"}]
+                res.append({"id": "afterfilter/%s/%s/%s" % (st, after, "fwd" if fwd else "nofwd"), "cfg": {"filters": [f]}, "steps": steps, "tags": ["afterFilter"]})
+    return res
+
+
+def discovery_family(W):
+    """Discovery-based filters: two providers selected by the query of one discovery URL, override-based configuration with an
+    inherited logout section, a provider that advertises only the plain PKCE method, an outage of discovery at the first request."""
+    res = []
+    for st in ("memory", "redis"):
+        for first in ("f1", "f2"):
+            for inherit in (False, True):
+                f1 = dict(F1, store=st, discovery=True, idp="A", override=True, noLogoutRedirect=True, inheritLogout=inherit, prefix="one")
+                f2 = dict(F2, store=st, discovery=True, idp="B", override=True, noLogoutRedirect=True, inheritLogout=inherit, prefix="two")
+                other = "f2" if first == "f1" else "f1"
+                steps = [browse("b1", first, 1), browse("b2", other, 2), app("b1", first), app("b2", other),
+                         {"op": "check", "b": "b2", "f": other, "kind": "logout", "cookie": "jar"}, {"op": "check", "b": "b1", "f": first, "kind": "logout", "cookie": "jar"}]
+                res.append({"id": "discovery/two/%s/%s-first/%s" % (st, first, "inherit" if inherit else "own"), "cfg": {"filters": [f1, f2]}, "steps": steps, "tags": ["discovery"]})
+        for doc in ("pkcePlainOnly", "noMethods"):
+            f = dict(F1, store=st, discovery=True, discoveryDoc=doc)
+            res.append({"id": "discovery/%s/%s" % (doc, st), "cfg": {"filters": [f]}, "steps": [browse("b1", "f1", 1), app("b1", "f1")], "tags": ["discovery"]})
+        f = dict(F1, store=st, discovery=True)
+        res.append({"id": "discovery/outage/%s" % st, "cfg": {"filters": [f]},
+                    "steps": [{"op": "idpctl", "d": 1}, app("b1", "f1", cookie="none"), app("b1", "f1", cookie="none"), browse("b1", "f1", 1), app("b1", "f1")], "tags": ["discoveryOutage"]})
+    return res
+
+
+def dup_chain_family(W):
+    res = []
+    for st in ("memory", "redis"):
+        for first in ("f1", "f2"):
+            f1 = dict(F1, store=st, chainName="same", prefix="one")
+            f2 = dict(F2, store="redis" if st == "memory" else "redis2", chainName="same", prefix="two", idp="B", idHeader="x-id-two", idPreamble="Token")
+            other = "f2" if first == "f1" else "f1"
+            steps = [browse("b1", first, 1), app("b1", first), app("b1", other, cookieAs=first), browse("b2", other, 2), app("b2", other),
+                     {"op": "check", "b": "b2", "f": other, "kind": "logout", "cookie": "jar"}]
+            res.append({"id": "dupchain/%s/%s-first" % (st, first), "cfg": {"filters": [f1, f2]}, "steps": steps, "tags": ["dupChainNames"]})
+    return res
+
+
+def secret_rotation_family(W):
+    """C19 at the token endpoint: a filter taking its secret from a Kubernetes Secret that is rotated between token requests."""
+    res = []
+    for st in ("memory", "redis"):
+        for disc in (False, True):
+            f = dict(F1, store=st, secretRef="n1", discovery=disc)
+            g = dict(F2, store=st, secretRef="n1", prefix="two")      # a second filter referencing the same Secret
+            h = dict(F2, name="f3", store=st, prefix="three")          # and one with a literal secret
+            steps = [{"op": "secret", "f": "n1", "value": "K8S-SECRET-v1-Qw7Er9Ty2"}, browse("b1", "f1", 1), browse("b2", "f2", 2), browse("b3", "f3", 3),
+                     {"op": "tick", "d": 61}, {"op": "secret", "f": "n1", "value": "K8S-SECRET-v2-Zx3Cv5Bn8"},
+                     app("b1", "f1", ans=dict(ANS, rotate=True)), app("b2", "f2", ans=dict(ANS, rotate=True)), app("b3", "f3", ans=dict(ANS, rotate=True)),
+                     {"op": "check", "b": "b1", "f": "f1", "kind": "logout", "cookie": "jar"}, browse("b1", "f1", 1),
+                     {"op": "secret", "f": "n1", "value": "K8S-SECRET-v3-Lk1Jh4Gf6"}, {"op": "tick", "d": 61}, app("b1", "f1"), app("b2", "f2")]
+            res.append({"id": "secretrotation/%s/%s" % (st, "discovery" if disc else "static"), "cfg": {"filters": [f, g, h]}, "steps": steps, "tags": ["secretRotation"]})
+    return res
+
+
+def decoy_family(W):
+    res = []
+    for st in ("memory", "redis"):
+        for prefix in ("", "pfx"):
+            f = dict(F1, store=st, prefix=prefix)
+            steps = [browse("b1", "f1", 1),
+                     app("b2", "f1", cookie="sid:1", decoy="only", url=2),        # the victim's id planted in a look-alike cookie only: no session
+                     app("b1", "f1", decoy="before"),                               # a look-alike cookie before the real one
+                     {"op": "check", "b": "b1", "f": "f1", "kind": "logout", "cookie": "jar", "decoy": "before"},
+                     app("b1", "f1", cookie="sid:1"),
+                     {"op": "check", "b": "b2", "f": "f1", "kind": "logout", "cookie": "sid:1", "decoy": "only"}]
+            res.append({"id": "decoy/%s/%s" % (st, prefix or "noprefix"), "cfg": {"filters": [f]}, "steps": steps, "tags": ["decoyCookie"]})
     return res
 
 
@@ -414,6 +528,7 @@ def c09(W, replay=None):
                     if stname == "redis":
                         scen += redis_cmd_variants(sc)
         scen += logout_histories(W, 300 if thorough else 40)
+        scen += discovery_family(W) + dup_chain_family(W) + decoy_family(W)
     return sys_pipeline("C09", W, scen, None, [
         "interleavings are at store-call / token-endpoint-call / key-lookup granularity (the gates of the harness)",
         "a check whose last store access preceded the logout's removal and which is answered later is treated as an answer delayed in the network",
@@ -483,6 +598,7 @@ def c02(W, replay=None):
         ms = sample(W, ms, 1500 if W.tier == "thorough" else 120)
         for stname in ("memory", "redis"):
             scen += [conv(m, "c02/race/%s/%d" % (stname, i), 1, store=stname, probes=finish_all(m) + [PROBE_APP]) for i, m in enumerate(ms)]
+        scen += same_client_family(W) + after_deny_family(W) + dup_chain_family(W)
         if W.tier == "thorough":
             scen += random_histories(W, 800, faults=True)
     return sys_pipeline("C02", W, scen, None, ASSUME_SYS + ["the strength of jws.Verify itself is trusted; classes are the enumerated grammar and its rendered variants"], replay=replay)
@@ -501,7 +617,7 @@ def c03(W, replay=None):
         bad = cfg_text("BSpec", dict(consts, NoExpiresInMeansExpired="TRUE"), ["OnePass", "NotStuck"], extra="PROPERTY LoginEnds\n")
         out, viol = W.tlc_exhaustive("AuthFlowBrowser", bad, "c03-design-defect", workers=4, timeout=1200, expect_violation=True)
         log("[design] with 'no expires_in means expired' the browser model %s OnePass / LoginEnds" % ("VIOLATES" if viol else "satisfies"))
-    scen = [] if replay else family(W, "C03")
+    scen = [] if replay else family(W, "C03") + same_client_family(W) + [x for x in discovery_family(W) if "outage" not in x["id"] and "pkce" not in x["id"]]
     return sys_pipeline("C03", W, scen, None, ASSUME_SYS + ["callback and logout paths satisfy the trigger rules (documented precondition)",
                                                          "the browser follows every 302 and keeps cookies per RFC 6265 user-agent parsing"], replay=replay)
 
@@ -512,6 +628,7 @@ def c04(W, replay=None):
     if not replay:
         design_mc(W, "c04-design", ["ExchangeBound", "TokensFromOwnLogin"], Kinds='{"app","callback"}', MaxCode=3 if W.tier == "thorough" else 2)
         scen = family(W, "C04") + attacker_family(W, 600 if W.tier == "thorough" else 150) + parallel_family(W, 400 if W.tier == "thorough" else 40)
+        scen += family(W, "C18", "quick") + same_client_family(W) + discovery_family(W) + dup_chain_family(W)
     return sys_pipeline("C04", W, scen, None, ASSUME_SYS + ["the simulated token endpoint logs exactly what it was sent and is strict (RFC 6749/7636)"], replay=replay)
 
 
@@ -520,7 +637,7 @@ def c05(W, replay=None):
     scen = []
     if not replay:
         design_mc(W, "c05-design", ["TokensOnlyUnderIssued"])
-        scen = family(W, "C05") + attacker_family(W, 400 if W.tier == "thorough" else 80)
+        scen = family(W, "C05") + attacker_family(W, 400 if W.tier == "thorough" else 80) + decoy_family(W) + parallel_family(W, 200 if W.tier == "thorough" else 20)
         if W.tier == "thorough":
             scen += random_histories(W, 500)
     return sys_pipeline("C05", W, scen, None, ASSUME_SYS, replay=replay)
@@ -543,7 +660,7 @@ def c11(W, replay=None):
 
 def c13(W, replay=None):
     W.build()
-    scen = [] if replay else family(W, "C13")
+    scen = [] if replay else family(W, "C13") + discovery_family(W) + parallel_family(W, 200 if W.tier == "thorough" else 20)
     return sys_pipeline("C13", W, scen, None, ASSUME_SYS + ["Location values are parsed with net/url, independently of how the service assembled them"], replay=replay)
 
 
@@ -556,6 +673,7 @@ def c14(W, replay=None):
             ms = export(W, "c14-%s" % prep, Prepared='"%s"' % prep, Target=1, MaxFaults=2 if W.tier == "thorough" else 1, Checks="{1,2,3,4}", MaxSid=3, MaxTok=4, **kw)
             scen += [conv(m, "c14/%s/%d" % (prep, i), 1, store=("memory", "redis")[i % 2], probes=finish_all(m) + [PROBE_APP]) for i, m in enumerate(ms)]
         scen += random_histories(W, 500 if W.tier == "thorough" else 50, faults=True)
+        scen += after_deny_family(W) + discovery_family(W) + parallel_family(W, 100 if W.tier == "thorough" else 10) + secret_rotation_family(W)
     return sys_pipeline("C14", W, scen, None, ASSUME_SYS + ["every secret is a unique marker; an occurrence raw, percent-, base64-, base64url- or hex-encoded is detected"], replay=replay)
 
 
@@ -563,7 +681,7 @@ def c15(W, replay=None):
     W.build()
     scen = []
     if not replay:
-        scen = family(W, "C15")
+        scen = family(W, "C15") + discovery_family(W) + after_deny_family(W)
         if W.tier == "thorough":
             scen += random_histories(W, 500, faults=True)
     return sys_pipeline("C15", W, scen, None, ["a panic is recovered by the harness around ExtAuthZFilter.Check and logged as an event no action of the specification accepts as well-formed"],
@@ -581,7 +699,7 @@ def c18(W, replay=None):
         out, viol = W.tlc_exhaustive("AuthFlow", af_cfg(["HonouredOnlyByCreator"], Checks="{1,2,3,4}", Filters="{1,2}", MaxInFlight=1, Attacker="TRUE", TokLife=1,
                                                        Kinds='{"app","callback"}', KeyedByIdOnly="TRUE"), "c18-design-as-coded", workers=16, timeout=3000, expect_violation=True)
         log("[design] as coded (shared store looked up by session id alone) the model %s HonouredOnlyByCreator" % ("VIOLATES" if viol else "satisfies"))
-        scen = family(W, "C18")
+        scen = family(W, "C18") + same_client_family(W) + discovery_family(W) + dup_chain_family(W)
     return sys_pipeline("C18", W, scen, None, ASSUME_SYS, replay=replay)
 
 
@@ -768,11 +886,17 @@ def timeout_system_scenarios(W):
     k = 0
     for st in ("memory", "redis"):
         for (a, i) in [(0, 0), (300, 0), (0, 100), (300, 100)]:
-            for pattern in ("idleThenLate", "activeUntilAbs", "inside"):
+            for pattern in ("idleThenLate", "activeUntilAbs", "inside", "refreshThenLate"):
                 steps = [{"op": "browse", "b": "b1", "f": "f1", "url": 1, "ans": long}]
                 app = {"op": "check", "b": "b1", "f": "f1", "kind": "app", "cookie": "sid:1", "url": 1, "ans": long}
                 if pattern == "idleThenLate":
                     steps += [{"op": "tick", "d": 50}, dict(app), {"op": "tick", "d": 120}, dict(app), {"op": "tick", "d": 400}, dict(app)]
+                elif pattern == "refreshThenLate":
+                    # short-lived tokens: a refresh inside the absolute window must not move the window
+                    short = {"mode": "honest", "rt": True, "rotate": True, "expiresIn": 90, "idLife": 90}
+                    steps = [{"op": "browse", "b": "b1", "f": "f1", "url": 1, "ans": short}]
+                    app = {"op": "check", "b": "b1", "f": "f1", "kind": "app", "cookie": "sid:1", "url": 1, "ans": short}
+                    steps += [{"op": "tick", "d": 95}, dict(app), {"op": "tick", "d": 95}, dict(app), {"op": "tick", "d": 95}, dict(app), {"op": "tick", "d": 60}, dict(app)]
                 elif pattern == "activeUntilAbs":
                     for _ in range(7):
                         steps += [{"op": "tick", "d": 60}, dict(app)]
